@@ -245,7 +245,7 @@ func WithTag(ctx context.Context, tag string) context.Context {
 
 // Invoke performs a unary call the way generated code does.
 func Invoke(ctx context.Context, cc grpc.ClientConnInterface, tag string, req []byte) ([]byte, error) {
-	out := new(BV)
+	out := reused()
 	err := cc.Invoke(WithTag(ctx, tag), MUnary, &BV{Value: req}, out)
 	if err != nil {
 		return nil, err
@@ -253,9 +253,14 @@ func Invoke(ctx context.Context, cc grpc.ClientConnInterface, tag string, req []
 	return out.Value, nil
 }
 
+// reused returns a message that already holds data, as a caller that reuses one reply or receive
+// object across calls has: decoding a reply into it must replace that content, also when the reply's
+// encoding is empty.
+func reused() *BV { return &BV{Value: []byte("stale content of a reused message")} }
+
 // Invoke2 calls the service's second unary method; its reply carries the prefix "U2:".
 func Invoke2(ctx context.Context, cc grpc.ClientConnInterface, tag string, req []byte) ([]byte, error) {
-	out := new(BV)
+	out := reused()
 	err := cc.Invoke(WithTag(ctx, tag), MUnary2, &BV{Value: req}, out)
 	if err != nil {
 		return nil, err
@@ -301,7 +306,7 @@ func (s *Stream) Recv() ([]byte, error) {
 	if s.recvN > 50000 {
 		return nil, ErrRecvNeverEnds
 	}
-	m := new(BV)
+	m := reused()
 	if err := s.RecvMsg(m); err != nil {
 		return nil, err
 	}
@@ -316,7 +321,7 @@ func (s *Stream) CloseAndRecv() ([]byte, error) {
 	if err := s.CloseSend(); err != nil {
 		return nil, err
 	}
-	m := new(BV)
+	m := reused()
 	if err := s.RecvMsg(m); err != nil {
 		return nil, err
 	}
